@@ -231,6 +231,35 @@ def replay(ctx, cat, gen):
 
 # ---------------------------------------------------------------- entry
 
+def rebase_noyes_stream(ctx, n):
+    """overlay rebase in JSON mode without --yes over generated (baseline, overlay edit, new upstream) triples — dir and
+    patch overlays, conflicts, files deleted upstream: plain it must be refused with an unchanged overlay directory, with
+    --dry-run it may run but must leave the overlay directory (conflict artifacts, baseline) byte-identical
+    (scenario machinery of props/c14.py; only its without-yes predicates are judged here)"""
+    from props import c14
+    rng = ctx.rng
+    specs = []
+    for i in range(n):
+        sp = c14.gen_spec(rng, i, kind=rng.choice(['dir', 'patch', 'patch']), quick=True)
+        for st in sp['steps']:
+            st['noyes'] = True; st['dry_noyes'] = True; st['dry_first'] = False; st['second'] = False
+        specs.append(sp)
+    def job(sp):
+        try:
+            return c14.run_scenario(sp)
+        except InfraError:
+            return None
+    with concurrent.futures.ThreadPoolExecutor(max_workers=8) as ex:
+        results = list(ex.map(job, specs))
+    for sp, R in zip(specs, results):
+        if R is None:
+            ctx.count('rebase_noyes', key=('infra', sp.get('name')), nontrivial=False, tags=['skipped']); continue
+        codes = tuple(sorted({str(iv['code']) for iv in R.ivs_summary if iv['name'] in ('noyes', 'dry_noyes')}))
+        ctx.count('rebase_noyes', key=(sp.get('kind'), len(sp['steps']), codes, sp.get('name')), tags=['kind:%s' % sp.get('kind')] + ['code:%s' % c for c in codes])
+        for what, extra in R.viol:
+            if 'without --yes' in what or 'refused' in what:
+                ctx.violation(what, {'stream': 'rebase_noyes', 'spec': sp, 'detail': extra})
+
 def run(ctx):
     quick = ctx.tier == 'quick'
     ctx.rule = ('catalogue = leaf commands of the binary\'s own `help --json` (cross-checked with Cli::command_path and MUTATING_COMMAND_IDS from source); '
@@ -254,6 +283,7 @@ def run(ctx):
     ctx.count('catalogue', key='help-json', tags=['commands:%d' % len(cat.commands), 'mutating:%d' % len(cat.mutating)])
     if ctx.replay and replay(ctx, cat, gen):
         return
+    rebase_noyes_stream(ctx, 40 if quick else 400)
     known_k8a = ctx.is_known(K8A)
     kinds = list(C.WORLD_KINDS)
     hjobs = [] if quick else [(ctx.rng.choice(['deployed', 'pending', 'fresh', 'nomanifest', 'bootstrapped', 'adopt']), ctx.rng.randrange(2, 7), ctx.rng.randrange(1 << 30)) for _ in range(40)]
